@@ -40,6 +40,9 @@ pub struct Reply {
     pub headers: u8,
     pub body: ReplyBody,
     pub fault: ReplyFault,
+    /// Content-Length on the reply: 0 none, 1 the body's length, 2 a huge declared length, 3 Transfer-Encoding: chunked label (body sent raw)
+    #[serde(default)]
+    pub declare: u8,
 }
 
 #[derive(Debug, Clone, Serialize, Deserialize)]
@@ -219,6 +222,9 @@ fn run_one(case: &Case, reply_events: Vec<Ev>, head_len: usize, head_complete: b
         }
     }
 
+    if log.over_limit {
+        return fail("refusal-body-unbounded", format!("{} bytes pulled from the proxy", log.served));
+    }
     if !accept {
         // P2
         let err = match res {
@@ -341,7 +347,7 @@ Oracle P1-P5 over the ordered write/serve log. non-trivial = non-2xx with body >
                 1 => any::<u16>().prop_map(ReplyFault::IoErr),
             ],
         )
-            .prop_map(|(status, reason, headers, body, fault)| Reply { status, reason, headers, body, fault });
+            .prop_map(|(status, reason, headers, body, fault)| Reply { status, reason, headers, body, fault, declare: 0 });
         (
             crate::urlgen::host(),
             prop_oneof![Just(PortSpec::None), Just(PortSpec::ExplicitDefault), Just(PortSpec::Other(8443))],
@@ -351,8 +357,10 @@ Oracle P1-P5 over the ordered write/serve log. non-trivial = non-2xx with body >
             any::<u32>(),
             prop_oneof![3 => Just(Mode::Danger), 2 => (any::<bool>(), any::<bool>()).prop_map(|(present_proxy_cert, ip_origin)| Mode::Verify { present_proxy_cert, ip_origin })],
             0u8..3,
+            0u8..4,
         )
-            .prop_map(|(origin_host, origin_port, proxy, mut reply, seg, seed, mode, auth)| {
+            .prop_map(|(origin_host, origin_port, proxy, mut reply, seg, seed, mode, auth, declare)| {
+                reply.declare = declare;
                 // a 2xx reply never carries a body here (bytes after the head would be fed to TLS); keep the head intact half of the time
                 if (200..300).contains(&reply.status) {
                     reply.body = ReplyBody::None;
@@ -376,6 +384,17 @@ Oracle P1-P5 over the ordered write/serve log. non-trivial = non-2xx with body >
         for i in 0..case.reply.headers {
             head.extend_from_slice(format!("X-Proxy-{i}: value {i}\r\n").as_bytes());
             structural.push(head.len());
+        }
+        let (body0, _e0): (Vec<u8>, bool) = match &case.reply.body {
+            ReplyBody::None => (vec![], false),
+            ReplyBody::Bytes(p) => (p.bytes(), false),
+            ReplyBody::Endless => (vec![], true),
+        };
+        match case.reply.declare % 4 {
+            1 => head.extend_from_slice(format!("Content-Length: {}\r\n", body0.len()).as_bytes()),
+            2 => head.extend_from_slice(b"Content-Length: 1099511627776\r\n"),
+            3 => head.extend_from_slice(b"Transfer-Encoding: chunked\r\n"),
+            _ => {}
         }
         head.extend_from_slice(b"\r\n");
         structural.push(head.len());
